@@ -15,6 +15,7 @@ import (
 	"go.minekube.com/gate/pkg/edition/java/proto/version"
 	"go.minekube.com/gate/pkg/edition/java/proxy/tablist"
 	"go.minekube.com/gate/pkg/gate/proto"
+	"go.minekube.com/gate/pkg/internal/verifhook"
 )
 
 // backendConfigSessionHandler is a special session handler that catches "last minute" disconnects.
@@ -166,6 +167,7 @@ func (b *backendConfigSessionHandler) handleFinishedUpdate(p *config.FinishedUpd
 			b.requestCtx.result(nil, fmt.Errorf("error writing finished update packet: %w", err))
 			return
 		}
+		verifhook.Point("cfg.acked", "player", player.profile.Name, "server", b.serverConn.verifName())
 
 		if b.serverConn == player.connectedServer() {
 			if !smc.SwitchSessionHandler(state.Play) {
